@@ -37,16 +37,9 @@ CLAIMED: dict[str, tuple[str, str, str, str]] = {
         "DESIGN.md §4 C06",
     ),
     "C07": (
-        "Lean 4 proof of the white-box simplifier model (mutual fuel recursion with explicit detect_recursion stack) relative to two leaf facts + structural differential correspondence (model vs real intersect/union/invert) + truth oracle on environment grids",
-        "Machine-checked: intersect/union/invert, intersection()/union(), MultiMarker.of/MarkerUnion.of incl. the `while old != new` fix-point loop, "
-        "intersect_simplify/union_simplify, cnf/dnf and the RecursionError fallbacks are truth-preserving for EVERY fuel, stack, operand and "
-        "environment, relative to two leaf facts (marker equality => equal truth; a successful _merge_single_markers is the exact "
-        "conjunction/disjunction). These facts are proved on the string fragment from C16's exactness; they remain named hypotheses for "
-        "version-like variables, the python_version/python_full_version pairing, extra, and leaf inversion. The universal statement is proved "
-        "FALSE on the known finding (`not in` united with `not in` -> Any). Results are proved printable and re-readable at tree level. The model "
-        "mirrors markers.py branch by branch and agrees structurally (tree, text, flags, truth vectors, error class) with the real code on "
-        "every generated pair, incl. the complete python_version x python_version operator/adjacent-value universe.",
-        TB + "Partial as stated; functools caches cleared per case (C20 owns cache transparency); 4 s per-case limit; one known finding.",
+        "Lean 4 proof of the white-box simplifier model (mutual fuel recursion with explicit detect_recursion stack): refinement to an abstract leaf semantics, leaf facts discharged per fragment + structural differential correspondence (model vs real intersect/union/invert) + truth oracle on environment grids",
+        "Machine-checked: intersect/union/invert, intersection()/union(), MultiMarker.of/MarkerUnion.of incl. the `while old != new` fix-point loop, intersect_simplify/union_simplify, cnf/dnf and the RecursionError fallbacks are truth-preserving for EVERY fuel, stack, operand and environment relative to two leaf facts (marker equality => equal truth; a successful _merge_single_markers is the exact conjunction/disjunction); these facts are DISCHARGED, so that `intersect_union_sound_full`, `invert_sound_full`, `empty_any_full` hold with no unproved hypothesis on the full comparison-operator domain: string variables (==/!= on plain values incl. values such as inotify/interix, and the atomic multi/union leaves merges build), extra, python_version \"X.Y\", python_full_version \"X.Y.Z\" incl. the python_version<->python_full_version pairing under python_version = major.minor, platform_release release numbers; inversion additionally on in/not in lists and reversed operands via agreement with the reference evaluator. The universal statement is proved FALSE on the known finding (`not in` united with `not in` -> Any). The model mirrors markers.py branch by branch and agrees structurally (tree, text, flags, truth vectors, error class) with the real code on every generated pair, incl. the complete python_version x python_version operator/adjacent-value universe.",
+        TB + "Still hypotheses: ~= leaves (merge and inversion), merging of in/not in leaves (false on strings: counterexample), ===, other literal shapes; functools caches cleared per case (C20 owns cache transparency); per-request clocks on both sides (counted, never a verdict).",
         "DESIGN.md §4 C07",
     ),
     "C10": (
@@ -61,49 +54,27 @@ CLAIMED: dict[str, tuple[str, str, str, str]] = {
         "DESIGN.md §4 C10",
     ),
     "C11": (
-        "Lean 4 theorems over the white-box conversion model (create_nested_marker, normalize_python_version_markers, get_python_constraint_from_marker) against the PEP 508 reference semantics + structural differential correspondence + oracle on an interpreter grid",
-        "Machine-checked for all X, Y, Z : Nat: the create_nested_marker text evaluated by the reference equals allows(X.Y.Z) for ranges, "
-        "precision-3 versions, unions and the universal range (inclusive/exclusive x precision 1/2/3 x min/max incl. the .0 padding); the listed "
-        "operators land in that domain; normalize_python_version_markers is exact per (op, value) pair for all seven comparison operators; "
-        "get_python_constraint_from_marker is exact for single python items, an upper bound for whole markers and exact on python-only markers "
-        "with a DNF of python items (whole-marker theorems are `_partial` with named hypotheses: leaf agreement, multi-clause parser). Every run "
-        "compares model vs code on texts and constraints and evaluates ranges/markers on every minor 2.6-4.1 x patch levels by poetry-core "
-        "and by the reference, incl. the complete python_version pair universe.",
-        TB + "Outside the formalised reference: wildcard ranges (dev-release bounds), in/not in normalisation, one-component literals (counterexample theorem). Known finding single-version-precision-lt-3 as counterexample theorem.",
+        "Lean 4 theorems over the white-box conversion model (create_nested_marker, normalize_python_version_markers, get_python_constraint_from_marker) against the PEP 508 reference semantics and against poetry-core's own evaluation + structural differential correspondence + oracle on an interpreter grid",
+        "Machine-checked for all X, Y, Z : Nat: the create_nested_marker text evaluated by the reference equals allows(X.Y.Z) for ranges, precision-3 versions, unions and the universal range (inclusive/exclusive x precision 1/2/3 x min/max incl. the .0 padding), and the same through poetry-core's own parse_marker + validate (`createNested_poetry`, no leaf-level hypothesis on the full domain; wildcard ranges X.*, X.Y.*, !=X.Y.* relative to the leaf specification); the listed operators land in the domain; normalize_python_version_markers is exact per (op, value) pair and for in/not in lists; the multi-clause constraint text splits soundly (`split_sound`); get_python_constraint_from_marker is exact for single items, an upper bound for every marker and exact on python-only markers (`pyConstraint_upper_validate`, `pyConstraint_exact_validate`, hypothesis-free on the full comparison-operator domain). A proof obligation that would not close (`hne`) exposed a real defect (fixed as 683cb61). Every run compares model vs code on texts and constraints and evaluates ranges/markers on every minor 2.6-4.1 x patch levels by poetry-core and by the reference, incl. the complete python_version pair universe.",
+        TB + "Partial outside the domain (~=, one-component literals: counterexample theorem). Known finding single-version-precision-lt-3 as counterexample theorem.",
         "DESIGN.md §4 C11",
     ),
     "C13": (
-        "Lean 4 proof: unconditional CNF/DNF shape theorems, meaning preservation relative to C07's leaf facts, tree-level print/re-read theorem + structural differential correspondence + re-parse by poetry-core and by the reference parser",
-        "Machine-checked, unconditional (every fuel, stack, input): cnf/dnf results have the promised shape; `_merge_single_markers` yields "
-        "Any/Empty/leaf. cnf/dnf preserve meaning relative to C07's leaf facts. `__str__` is proved to be the text of a grammar tree that "
-        "`_compact_markers` reads back with the same meaning (parenthesisation vs precedence); token-level parse round trip for all trees; "
-        "agreement with Spec.Pep508 through C06's coherence predicates; normal forms and intersect/union results are printable. The "
-        "character-level lexer round trip is a stated def, covered by the correspondence: every result text is re-parsed by poetry-core and "
-        "by packaging and re-evaluated on the environment sample.",
-        TB + "Partial as stated; caches cleared per case; 4 s per-case limit.",
+        "Lean 4 proof: unconditional CNF/DNF shape theorems, character-level print/parse round trip, meaning preservation on the full comparison-operator domain + structural differential correspondence + re-parse by poetry-core and by the reference parser",
+        "Machine-checked, unconditional (every fuel, stack, input): cnf/dnf results have the promised shape (non-empty compounds); `_merge_single_markers` yields Any/Empty/leaf; character-level `parseText (text t) = t` for all lexable trees and the token-level round trip; `__str__` is the text of a grammar tree that `_compact_markers` reads back with the same meaning (parenthesisation vs precedence). On the full comparison-operator domain with quotable values (`print_parse_full`, `algebra_print_parse_full`): results of intersect/union print, parse back and rebuild with the same meaning, and cnf/dnf preserve meaning (C07's discharged leaf facts); agreement with Spec.Pep508 through C06. Every run re-parses every result text by poetry-core and by packaging and re-evaluates it on the environment sample.",
+        TB + "Outside that domain the meaning theorems stay relative to the leaf facts; caches cleared per case; per-request clocks (counted).",
         "DESIGN.md §4 C13",
     ),
     "C17": (
-        "Lean 4 theorems by structural induction over only/exclude/reduce_by_python_constraint, composed with C07's proved simplifier soundness + structural differential correspondence + truth oracle",
-        "Machine-checked: `only` only weakens (conjunctions and disjunctions) and keeps the leaf invariant; `exclude` on a conjunction of "
-        "leaves is exactly the conjunction of the others; without_extras = exclude(\"extra\") (rfl); reduction by a Python range is exact "
-        "including the MarkerUnion shortcut. Relative to the leaf facts of C07 (LeafSpec); `only_mentions` needs `OfVars` (the simplifier "
-        "introduces no variable), `reduce_exact` needs `ReduceCtx` (C11 gpc exactness, C12 allows_all/allows_any at the probe) — named "
-        "hypotheses. Every run compares model vs code on only/exclude/without_extras/reduce results and evaluates the three statements on "
-        "the environment sample.",
-        TB + "Partial as stated.",
+        "Lean 4 theorems by structural induction over only/exclude/reduce_by_python_constraint, composed with C07's simplifier soundness and C11's conversion exactness + structural differential correspondence + truth oracle",
+        "Machine-checked, hypothesis-free on the full comparison-operator domain: `only_mentions` (the result mentions only the requested variables: the simplifier introduces no variable), `only_weakens_validate`, `exclude` on a conjunction of leaves is exactly the conjunction of the others, without_extras = exclude(\"extra\") (rfl), `reduce_exact_validate` (reduction by a Python range is exact incl. the MarkerUnion shortcut, for ranges whose bounds have two or three components). General forms relative to the leaf specification are kept as `_partial`. Every run compares model vs code on only/exclude/without_extras/reduce results and evaluates the three statements on the environment sample.",
+        TB + "Ranges with one-component bounds and markers outside the comparison-operator domain are covered by the general forms + correspondence.",
         "DESIGN.md §4 C17",
     ),
     "C19": (
-        "Lean 4 proof of error classification and printability over executable models of the parsers + differential token-level fuzz against the real code (six grammars + Factory.validate)",
-        "Machine-checked for every string: Version.parse, the string/extra constraint parsers fail only with the documented ValueError; the marker "
-        "grammar recogniser fails only with the syntax error; single-clause version constraints fail only with ValueError; raw marker trees and "
-        "all ranges print (no IndexError in wildcard printing). Multi-clause version constraints and marker leaves are proved modulo ONE named "
-        "hypothesis (totality of intersect / VersionUnion.of on parser-built operands), parse_marker modulo the simplifier. Front ends (re, lark) "
-        "are tied to the models by correspondence (accept/reject, error class, normal text on ~43k fuzz strings per quick run; 2M in thorough). "
-        "Requirements, dependencies and Factory.validate are covered by the real-code oracle (ok / documented error / other / timeout, "
-        "printability, re-parse; witnesses minimised by delta debugging).",
-        TB + "Partial as stated. Eight defects fixed in /repo; super-linear cost classes (git URL regexes, algebra on 10^4-char inputs) and one schema gap are known findings.",
+        "Lean 4 proof of error classification and printability over executable models of the parsers + differential token-level fuzz against the real code (six grammars + Factory.validate) + regex stress per pattern source",
+        "Machine-checked for EVERY string: Version.parse, the string/extra constraint parsers and the version-constraint parser (any number of `,` and `||`, local labels included) fail only with the documented ValueError, and what they return prints (no IndexError/AssertionError anywhere in parse, intersect, VersionUnion.of, `_inverted`, wildcard printing \u2014 the model's walk fuel is proved sufficient); the marker grammar recogniser fails only with the syntax error; marker leaves fail only with ValueError; all 16 functions of the simplifier block can only fail with fuel/recursion or a leaf-merge error, the AttributeError/IndexError/KeyError/TypeError/RuntimeError branches are dead; parse_marker / Requirement / create_from_pep_508 are classified up to one named residue. Front ends (re, lark) are tied to the models by correspondence (accept/reject, error class, normal text on ~46k fuzz strings per quick run; 2M in thorough); every regex constant of the parser modules is pumped for super-linear back-tracking; Factory.validate is covered by the real-code oracle on type- and key-mutated mappings.",
+        TB + "Partial: `simplifier_residue` (version-constraint algebra on simplifier-built operands; the python_version leaf invariant) and convertMarkersFor are named hypotheses. Eleven defects fixed in /repo; hang-like classes (git URL regexes, 60-level random and/or nesting) and one schema gap are known findings.",
         "DESIGN.md §4 C19",
     ),
     "C08": (
@@ -128,14 +99,9 @@ CLAIMED: dict[str, tuple[str, str, str, str]] = {
         "DESIGN.md §4 C14",
     ),
     "C18": (
-        "Lean 4 proof over executable models of __eq__/__hash__ (hash modelled by its input tree, xor commutative) + correspondence of the == matrix, hash-input classes, dumps and reachability flags on pools of spellings + real-code oracle on all pairs and triples",
-        "Machine-checked for all values: equality is an equivalence and equal values have equal hash inputs for versions, string constraints and "
-        "markers; for version constraints (parser, intersect and union are proved never to build a degenerate range, so no guard is needed for reachable values); for specifications and "
-        "dependencies, transitivity under exact references and hash coherence; interchangeability (same allows/validate) for versions, ranges, "
-        "non-union constraints, string constraints and coherent markers. Every run compares the model's == / hash-input classes with real == / "
-        "hash() on pools with many spellings of one value and evaluates reflexivity, symmetry, transitivity, hash coherence, interchangeability "
-        "and re-parse equality on the real objects.",
-        TB + "Partial: allows-congruence through VersionUnion's excludes_single_version shortcut and coherence of every parsed marker are stated, checked per object at run time; text round trips taken from C03/C15 as hypotheses. Two VCS-reference classes are known findings (by-design prefix matching).",
+        "Lean 4 proof over executable models of __eq__/__hash__ (hash modelled by its input tree, xor commutative) + correspondence of the == matrix, hash-input classes, dumps and reachability flags on pools of spellings incl. derived objects with a hashing history + real-code oracle on all pairs and triples",
+        "Machine-checked for all values: equality is an equivalence and equal values have equal hash inputs for versions, string constraints and markers; for version constraints with no guard on reachable values (parser, intersect and union are proved never to build a degenerate range); for specifications and dependencies (transitivity under exact references, hash coherence unconditional, derivation cannot change the hash input); interchangeability (same allows/validate) for versions, ranges, constraints of the regular setting incl. unions, string constraints and coherent markers; re-parse closure with C15's string-level round trip. Every run compares the model's == / hash-input classes with real == / hash() on pools with many spellings of one value, fresh and derived after hashing, and evaluates reflexivity, symmetry, transitivity, hash coherence, set membership, interchangeability and re-parse equality on the real objects.",
+        TB + "Partial: allows-congruence outside the regular setting and coherence of every parsed marker are stated, checked per object at run time. Two VCS-reference classes are known findings (by-design prefix matching); three defects fixed.",
         "DESIGN.md §4 C18",
     ),
     "C02": (
@@ -162,15 +128,9 @@ CLAIMED: dict[str, tuple[str, str, str, str]] = {
         "DESIGN.md §4 C03",
     ),
     "C04": (
-        "Lean 4 theorems: parsed constraint membership = formalised packaging specifier semantics, per operator + differential correspondence (model vs code, spec vs packaging)",
-        "Machine-checked proof that, for every operator of the property and every well-formed literal/candidate, membership in the "
-        "model of the parsed constraint equals the formalised reference semantics (Spec/Specifier.lean, the range-based "
-        "packaging 26 algorithm) on candidates that are regular for the literal (other release, or equal), incl. the exclusive "
-        "comparison rules, wildcards (==V.* and !=V.* on every candidate, the latter through the real union `allows`), every operator but "
-        "!= with final literals on EVERY candidate incl. ~=, comparison sets of any length, and the documented ranges of ^, ~, bare versions "
-        "and ||. Partial: sets containing ~=, != or wildcard clauses and sets on candidates of a literal's own release are stated "
-        "(`*_full_statement`) and covered by the correspondence only. Every run compares model vs real parse_constraint().allows() and spec vs packaging on ~200k pairs.",
-        TB + "Reference = packaging 26.3 in a subprocess. Three in-guard divergence classes are known findings (by design of the range algebra).",
+        "Lean 4 theorems: parsed constraint membership = formalised packaging specifier semantics, per operator and for sets + differential correspondence (model vs code, spec vs packaging)",
+        "Machine-checked proof that membership in the model of the parsed constraint equals the formalised reference semantics (Spec/Specifier.lean, the range-based packaging 26 algorithm): per operator on candidates regular for the literal; every operator but != with final literals on EVERY candidate (incl. ~=, ==V.*), !=V.* on every candidate through the real union `allows`; the exclusive-comparison rules; sets of any length of single-range clauses with no regularity between literals (`>=1.2, ==1.2.*`), and sets with any operators in the regular setting; the documented ranges of ^, ~, bare versions and ||. Every run compares model vs real parse_constraint().allows() and spec vs packaging on ~230k pairs.",
+        TB + "Open: sets containing != / !=V.* whose range ends share a release without being equal; candidates of a literal's own release. Reference = packaging 26.3 in a subprocess. Three in-guard divergence classes are known findings (by design of the range algebra).",
         "DESIGN.md §4 C04",
     ),
     "C05": (
